@@ -1,6 +1,6 @@
 """Calls from the refusal table of spec/API.tla (code -> spec direction).
 
-One record per call:  {"op": "call", "api": ..., <the arguments the table reads>, "raised": <exception class or "none">,
+One record per call:  {"op": "refusal", "api": ..., <the arguments the table reads>, "raised": <exception class or "none">,
 "same": <receiver projection unchanged by a refused call>}.  TLC compares `raised` with API!Refusal (clause
 Drift_Refusal of TraceBase: model drift, never a verdict -- the refusals the properties state themselves are
 clauses of their own trace specifications).
@@ -76,7 +76,7 @@ def _arg(be, kind, n=2):
 def execute(scn, be):
     api = scn["api"]
     C = be.circuit
-    rec = {"op": "call"}
+    rec = {"op": "refusal"}
     rec.update({k: v for k, v in scn.items() if k not in ("k", "pkg", "pre", "how", "c")})
     raised = "none"
     same = None
